@@ -127,6 +127,8 @@ var Ops = []Op{
 	repl(kHead, "headline-should-without-bang", func(l, _ string) string { return l[:10] + " (8h)" }),
 	repl(kHead, "headline-should-empty", func(l, _ string) string { return l[:10] + " ()" }),
 	repl(kHead, "headline-should-unclosed", func(l, _ string) string { return l[:10] + " (8h!" }),
+	repl(kHead, "headline-should-unclosed-non-ascii", func(l, _ string) string { return l[:10] + " (8h! für später 中" }),
+	repl(kHead, "headline-non-ascii-text", func(l, _ string) string { return l[:10] + " ünï (8h!)" }),
 	repl(kHead, "headline-should-garbage", func(l, _ string) string { return l[:10] + " (8x!)" }),
 	repl(kHead, "headline-should-no-space", func(l, _ string) string { return l[:10] + "(8h!)" }),
 	repl(kHead, "headline-should-twice", func(l, _ string) string { return l[:10] + " (8h!) (1h!)" }),
